@@ -434,6 +434,44 @@ def bounding_centre(ctx, crate):
     ctx.report(clause, "bounding_cone:centre-normalised", ok, "centre = (X, Y, Z) / sqrt(X^2 + Y^2 + Z^2)" if ok else "the centre is %s; its divisor read at (1, 2, 2) is %s, not 3" % ([show(a)[:50] for a in args], val), at=b.span, kind="N")
 
 
+def arc_test(ctx, crate):
+    """N: `intersect_great_circle_arc` (behind `has_intersection`): the comparisons that order two points
+    read the same component of both (longitude against longitude), and the function can answer both
+    `true` (an edge is crossed) and `false`."""
+    clause = "cell-edges"
+    fns = [p_ for p_ in crate.bodies if p_.endswith("Polygon::intersect_great_circle_arc")]
+    if len(fns) != 1: return
+    fn = fns[0]
+    b = ctx.anchor(crate, fn, clause)
+    if b is None: return
+    e = Engine(crate); r = e.run(fn); ctx.functions |= e.visited_fns
+    ADT = "sph_geom::coo3d::Coo3D"
+    nf = len(crate.adts[ADT]["variants"][0]["fields"]) if ADT in crate.adts else 0
+    def comp(t):
+        # a field of a Coo3D reached through a reference / an element of the vertex slice
+        if t[0] == 'fld' and isinstance(t[2], int) and t[2] < nf and t[1][0] in ('deref', 'idx', 'phi', 'fld', 'dc'): return t[2]
+        return None
+    mixed = []; same = 0
+    for d, loc in e.branches:
+        if loc[0] != fn or d[0] != 'op' or d[1] not in ('lt', 'le', 'gt', 'ge'): continue
+        ca, cb = comp(d[3]), comp(d[4])
+        if ca is None or cb is None: continue
+        if ca != cb: mixed.append(show(d)[:80])
+        else: same += 1
+    consts = set(); seen = set()
+    def leaves(t, depth=0):
+        if t in seen or depth > 10: return
+        seen.add(t)
+        if t[0] == 'phi':
+            for o in e.phi_ops.get(t, ()): leaves(o, depth + 1)
+        elif t[0] == 'c' and t[1] == 'bool': consts.add(t[2])
+    if r.returns: leaves(r.ret)
+    ok = not mixed and {0, 1} <= consts
+    ctx.report(clause, "intersect_great_circle_arc:same-component-and-both-answers", ok,
+               "%d ordering test(s) compare the same component of the two points; the function can answer true and false (constants %s)" % (same, sorted(consts)) if ok else
+               ("an ordering test compares different components: %s" % mixed if mixed else "the function cannot answer both true and false (constant answers %s)" % sorted(consts)), at=b.span, kind="N")
+
+
 def count_rule(ctx, crate):
     clause = "vertex-count"
     b = ctx.anchor(crate, NVIP, clause)
@@ -612,6 +650,7 @@ def run(ctx):
     coo3d_invariant(ctx, crate)
     winding_step(ctx, crate)
     cell_edges(ctx, crate)
+    arc_test(ctx, crate)
     bounding_centre(ctx, crate)
     driver(ctx, crate)
     from rules.c09 import recursion_shape
